@@ -647,6 +647,8 @@ func vItemEnd(t Token) bool {
 //@   props C06 C07
 //@   nopanic
 //@   requires forall(j, 0, len(input), input[j] != nil)
+//@   loop 1 step[every-other-token-starts-a-rule] calls(consumeRule) == old(calls(consumeRule)) + ite(typeIs(callresult(Next, 1), Whitespace) || typeIs(callresult(Next, 1), Comment), 0, 1)
+//@   call consumeRule#1 assert[rule-starts-at-the-token] arg0 == callresult(Next, 1) && arg1 == tokens
 //@   loop 1 invariant tokens != nil && 0 <= tokens.index && tokens.index <= len(tokens.tokens) && tokens.tokens == input && fresh(tokens) && fresh(result)
 //@   loop 1 decreases len(input) - tokens.index
 
@@ -656,6 +658,11 @@ func vItemEnd(t Token) bool {
 //@   requires forall(j, 0, len(input), input[j] != nil)
 //@   loop 1 invariant iter != nil && 0 <= iter.index && iter.index <= len(iter.tokens) && iter.tokens == input && fresh(iter) && fresh(result)
 //@   loop 1 decreases len(input) - iter.index
+// CSS Syntax 3 §5.4.1 "consume a list of rules": whitespace is skipped, top-level <!-- and --> are skipped (the
+// stylesheet flag), and EVERY other token - a stray `;` or `}` included - starts a rule
+//@   loop 1 step[every-other-token-starts-a-rule] calls(consumeRule) == old(calls(consumeRule)) + ite(typeIs(callresult(Next, 1), Whitespace) || typeIs(callresult(Next, 1), Comment) || (typeIs(callresult(Next, 1), Literal) && (callresult(Next, 1).(Literal).Value == "<!--" || callresult(Next, 1).(Literal).Value == "-->")), 0, 1)
+//@   call consumeRule#1 assert[rule-starts-at-the-token] typeIs(arg0, Literal) && arg0.(Literal) == callresult(Next, 1).(Literal) && arg1 == iter
+//@   call consumeRule#2 assert[rule-starts-at-the-token] arg0 == callresult(Next, 1) && arg1 == iter
 
 //@ func RemoveWhitespace
 //@   props C06 C07 C08
@@ -854,6 +861,9 @@ func vBadPairsCoverTable() (int, []string) {
 //@   props C20
 //@   modifies anything
 //@   requires writer != nil && t.AtKeyword != "" && forall(i, 0, len(t.AtKeyword), t.AtKeyword[i] != 0)
+//@   call serializeIdentifier#1 assert[keyword-as-identifier] arg0 == t.AtKeyword
+//@   call WriteString#1 assert arg1 == "@"
+//@   call WriteString#2 assert[keyword-after-the-at-sign] arg1 == callresult(serializeIdentifier, 1)
 //@   call WriteString#3 assert[statement-iff-no-block] arg1 == ";" && t.Content == nil
 //@   call WriteString#4 assert[block-kept] arg1 == "{" && t.Content != nil
 //@   call WriteString#5 assert arg1 == "}"
@@ -871,9 +881,36 @@ func vBadPairsCoverTable() (int, []string) {
 //@   props C20
 //@   modifies anything
 //@   requires writer != nil && t.Name != "" && forall(i, 0, len(t.Name), t.Name[i] != 0)
+//@   call serializeIdentifier#1 assert[name-as-identifier] arg0 == t.Name
+//@   call WriteString#1 assert[name-first] arg1 == callresult(serializeIdentifier, 1)
 //@   call WriteString#2 assert arg1 == ":"
 //@   call WriteString#3 assert[important] arg1 == "!important" && t.Important
 //@   call serializeTo#1 assert arg0 == t.Value
+
+// identifiers, at-keywords and function names are written as identifiers (their first code points escaped when
+// they could not start an identifier), never as bare names
+//@ func (Ident).serializeTo
+//@   props C20
+//@   modifies anything
+//@   requires writer != nil && t.Value != "" && forall(i, 0, len(t.Value), t.Value[i] != 0)
+//@   call serializeIdentifier#1 assert[ident-as-identifier] arg0 == t.Value
+//@   call WriteString#1 assert arg1 == callresult(serializeIdentifier, 1)
+//@ func (AtKeyword).serializeTo
+//@   props C20
+//@   modifies anything
+//@   requires writer != nil && t.Value != "" && forall(i, 0, len(t.Value), t.Value[i] != 0)
+//@   call WriteString#1 assert arg1 == "@"
+//@   call serializeIdentifier#1 assert[keyword-as-identifier] arg0 == t.Value
+//@   call WriteString#2 assert arg1 == callresult(serializeIdentifier, 1)
+//@ func (FunctionBlock).serializeTo
+//@   props C20
+//@   modifies anything
+//@   requires writer != nil && t.Name != "" && forall(i, 0, len(t.Name), t.Name[i] != 0)
+//@   call serializeIdentifier#1 assert[function-name-as-identifier] arg0 == string(t.Name)
+//@   call WriteString#1 assert arg1 == callresult(serializeIdentifier, 1)
+//@   call WriteString#2 assert arg1 == "("
+//@   call serializeTo#1 assert arg0 == t.Arguments
+//@   call WriteString#3 assert arg1 == ")"
 
 //@ func Serialize
 //@   props C20
